@@ -9,6 +9,10 @@ package vsched
 
 import (
 	"bytes"
+	"fmt"
+	"path/filepath"
+	"runtime/debug"
+	"strings"
 	"math/rand"
 	"os"
 	"runtime"
@@ -24,6 +28,17 @@ type freeState struct {
 	notes    map[string]bool
 	deadline time.Time
 	timedOut bool
+	panics   []string // "value\nstack" of panics recovered in goroutines of this run
+}
+
+// recoverPanic is deferred in every goroutine of a free run: a panic must not take the process down (the
+// remaining runs still have to happen); it is reported by exploreFree.
+func (fs *freeState) recoverPanic() {
+	if p := recover(); p != nil {
+		fs.mu.Lock()
+		fs.panics = append(fs.panics, fmt.Sprintf("%v\n%s", p, debug.Stack()))
+		fs.mu.Unlock()
+	}
 }
 
 var free *freeState
@@ -43,7 +58,7 @@ func exploreFree(cfg Config, st *Stats) {
 		done := make(chan struct{})
 		go func() {
 			defer close(done)
-			defer func() { recover() }()
+			defer fs.recoverPanic()
 			cfg.Body(x)
 		}()
 		select {
@@ -57,9 +72,57 @@ func exploreFree(cfg Config, st *Stats) {
 			st.Outcomes["free-ok"]++
 		}
 		st.Executions++
+		fs.mu.Lock()
+		for _, p := range fs.panics {
+			site := panicSite(p)
+			if site == "" {
+				st.Outcomes["free-panic-in-harness-code"]++
+				continue // not in the code under test: a harness or fake that is not safe for real concurrency
+			}
+			st.Outcomes["free-panic"]++
+			if len(st.Violations) < 3 {
+				st.Violations = append(st.Violations, Violation{Key: "panic-in-free-run " + site, Msg: "a goroutine of the code under test panicked while the harness body ran with real goroutines (free-running pass): " + p, Outcome: "panic"})
+			}
+		}
+		fs.mu.Unlock()
 		// goroutines left over stay blocked for good (the controlled mode would have unwound them)
 		free = nil
 	}
+}
+
+// panicSite returns file:function of the innermost frame below the panic that belongs to the repository
+// under test (not to the verification overlay, the runtime or a third-party module), or "".
+func panicSite(p string) string {
+	lines := strings.Split(p, "\n")
+	past := false
+	for i := 0; i+1 < len(lines); i++ {
+		if strings.HasPrefix(lines[i], "panic(") {
+			past = true
+			continue
+		}
+		if !past || !strings.HasPrefix(lines[i+1], "\t") {
+			continue
+		}
+		file := strings.TrimSpace(lines[i+1])
+		if j := strings.LastIndex(file, ":"); j > 0 {
+			file = file[:j]
+		}
+		if strings.Contains(file, "/go1.") || strings.Contains(file, "/pkg/mod/") || strings.Contains(file, "/internal/verif/") || strings.Contains(file, "zz_verif") || strings.Contains(file, "/.work/") && strings.Contains(file, "/mods/") {
+			if strings.Contains(file, "/internal/verif/") || strings.Contains(file, "zz_verif") {
+				return "" // the first non-runtime frame is harness code
+			}
+			continue
+		}
+		fn := lines[i]
+		if k := strings.LastIndex(fn, "("); k > 0 {
+			fn = fn[:k]
+		}
+		if k := strings.LastIndex(fn, "/"); k >= 0 {
+			fn = fn[k+1:]
+		}
+		return filepath.Base(file) + ":" + fn
+	}
+	return ""
 }
 
 func freeYield() {
